@@ -105,3 +105,83 @@ func VH_C18_S8_full_range() {
 	s.checkAll("after-gc-restart")
 	s.close()
 }
+
+// dirImage reads every data file of the bucket (chunks 0..n-1).
+func (s *scen) dirImage(n int) [][]byte {
+	img := make([][]byte, n)
+	for c := 0; c < n; c++ {
+		img[c] = fileBytes(genDataPath(s.dir, c))
+	}
+	return img
+}
+
+// C17-S7 / C03: footprint of a pass on a store that already went through one pass (an earlier,
+// not-full file exists): only files of [begin,end] are rewritten/truncated/removed; at most one
+// earlier file receives bytes, only by appending, and every file strictly between it and
+// begin is empty; the head and every other file stay byte-identical; pretend changes nothing;
+// reads are unchanged, also after all indexes are rebuilt.
+func VH_C17_S7_footprint() {
+	s := newScen(768, false, "ka", "kb", "kc", "kd", "ke")
+	s.setS("ka")
+	s.setS("kb")
+	s.setS("kc") // file0
+	s.setS("ka")
+	s.setS("kb")
+	s.setS("kd") // file1: supersedes ka,kb of file0
+	s.setS("kd")
+	s.setS("ke")
+	if vrt.Bool("tombstone") {
+		s.del("kd")
+	} else {
+		s.setS("kd")
+	} // file2: supersedes kd of file1
+	s.setS("ke") // file3 = head
+	s.flush()
+	s.gc(0, 0, vrt.Bool("merge0")) // file0 shrinks to one record: an earlier, not-full file
+	s.checkAll("after-first-pass")
+	const nChunks = 5
+	before := s.dirImage(nChunks)
+	head := s.bkt().datas.newHead
+	nHist := len(s.bkt().GCHistory)
+	// pretend mode: nothing changes, nothing is registered
+	pb, pe, perr := s.st.GC(0, -1, -1, 0, false, true)
+	_, _ = pb, pe
+	vrt.Assert("pretend-resolves", perr == nil)
+	vrt.Drain()
+	after0 := s.dirImage(nChunks)
+	same := true
+	for c := range before {
+		same = same && string(before[c]) == string(after0[c])
+	}
+	vrt.Assert("pretend-changes-nothing", same && len(s.bkt().GCHistory) == nHist && !s.st.IsGCRunning())
+	// a real pass over a later range
+	r := [][2]int{{2, 2}, {1, 2}, {1, 1}}[vrt.Choice("range", 3)]
+	s.gc(r[0], r[1], vrt.Bool("merge"))
+	after := s.dirImage(nChunks)
+	appended := -1
+	for c := 0; c < nChunks; c++ {
+		switch {
+		case c >= r[0] && c <= r[1]:
+			// inside the range: free
+		case c == head:
+			vrt.Assert("head-file-untouched", string(before[c]) == string(after[c]))
+		case c > r[1]:
+			vrt.Assert("files-after-the-range-untouched", string(before[c]) == string(after[c]))
+		default: // earlier than the range
+			if string(before[c]) != string(after[c]) {
+				vrt.Assert("earlier-file-only-appended-to", len(after[c]) > len(before[c]) && string(after[c][:len(before[c])]) == string(before[c]))
+				vrt.Assert("at-most-one-earlier-file-written", appended < 0)
+				appended = c
+			}
+		}
+	}
+	if appended >= 0 {
+		for c := appended + 1; c < r[0]; c++ {
+			vrt.Assert("no-non-empty-file-between-destination-and-range", len(before[c]) == 0)
+		}
+	}
+	s.checkAll("after-pass")
+	s.reopen([]int{0, 1, 7}[vrt.Choice("rm", 3)])
+	s.checkAll("after-pass-restart")
+	s.close()
+}
